@@ -9,8 +9,8 @@ definitions of the four `itertools` enumerations in `itertools` order. Mathlib-f
 The Python code is
 ```
 start = self.serialize_start(); end = self.serialize_end()
-mods = self.pop_mods(); self._internal_mods = mods.get('internal')
-components = [a.serialize() for a in self.split()]
+residues = self.copy(); mods = residues.pop_mods(); residues._internal_mods = mods.get('internal')
+components = [a.serialize() for a in residues.split()]
 return [parse(start + ''.join(i) + end) for i in itertools.<enum>(components, size)]
 ```
 `parse(start + … + end)` is modelled by its effect on annotations (`assemble`): labile/static/isotope/unknown/
@@ -76,17 +76,15 @@ def sliceOne (a : Annotation) (i : Nat) : Annotation :=
              nterm := if i > 0 then none else a.nterm,
              cterm := if i + 1 < a.seq.length then none else a.cterm }
 
-/-- `split()`: labile mods are popped from the object and appended to the first piece only -/
+/-- `split()`: every piece is `slice(i, i+1)`; the labile mods stay on the first piece only
+(`if i != 0 or not labile_mods: s.pop_labile_mods()`) -/
 def split (a : Annotation) : List Annotation :=
-  let lab := a.labile
-  let a' := { a with labile := none }
-  (List.range a'.seq.length).map fun i =>
-    let s := sliceOne a' i
-    if i = 0 then
-      match lab with
-      | some (m :: ms) => { s with labile := some (m :: ms) }
-      | _ => s
-    else s
+  let labTruthy : Bool := match a.labile with
+    | some (_ :: _) => true
+    | _ => false
+  (List.range a.seq.length).map fun i =>
+    let s := sliceOne a i
+    if i != 0 || !labTruthy then { s with labile := none } else s
 
 /-! ### serialise / parse round trip on the parts that matter here -/
 
@@ -128,7 +126,7 @@ def assemble (w : Annotation) (comps : List (List (Char × List Mod))) : Annotat
     charge := normCharge w.charge
     adducts := normList w.adducts }
 
-/-- the object after `mods = self.pop_mods(); self._internal_mods = mods.get('internal')` -/
+/-- `residues` after `mods = residues.pop_mods(); residues._internal_mods = mods.get('internal')` -/
 def afterPop (a : Annotation) : Annotation := { seq := a.seq, internal := a.internal }
 
 /-- `[a.serialize() for a in self.split()]` on the popped object -/
